@@ -59,6 +59,14 @@ func plans(id, tier string) (Plan, bool) {
 			{Pkg: pkgV2, Harness: "c03_bytes", Shards: pick(2, 8)},
 			{Pkg: pkgV2, Harness: "c03_names", Shards: 1},
 		}}, true
+	case "C04":
+		return Plan{Level: "model_checking", Jobs: []Job{
+			{Pkg: pkgV2, Harness: "c04_maporder_small", Instr: "v2map", Shards: pick(8, 16)},
+			{Pkg: pkgV2, Harness: "c04_maporder_corpus", Instr: "v2map", Shards: pick(8, 16)},
+			{Pkg: pkgV2, Harness: "c04_history", Shards: pick(4, 12)},
+			{Pkg: pkgV2, Harness: "c04_config", Shards: pick(4, 8)},
+			{Pkg: pkgV2, Harness: "c04_processes", Shards: 1, MaxProcs: 4},
+		}}, true
 	case "C05":
 		jobs := []Job{
 			{Pkg: pkgV2, Harness: "c05_tokens", Shards: 16},
@@ -78,6 +86,12 @@ func plans(id, tier string) (Plan, bool) {
 		return Plan{Level: "exploration", Jobs: []Job{
 			{Pkg: pkgV2, Harness: "c07_small", Shards: pick(6, 16)},
 			{Pkg: pkgV2, Harness: "c07_corpus", Params: "t=0.8", Shards: 16},
+		}}, true
+	case "C08":
+		return Plan{Level: "fault_enumeration", Jobs: []Job{
+			{Pkg: pkgV2, Harness: "c08_chunks", Shards: pick(4, 16)},
+			{Pkg: pkgV2, Harness: "c08_pads", Shards: pick(6, 16)},
+			{Pkg: pkgV2, Harness: "c08_faults", Shards: pick(6, 16)},
 		}}, true
 	case "C11":
 		return Plan{Level: "exploration", Jobs: []Job{
